@@ -41,7 +41,7 @@ def main():
     def nio(a):
         if len(a) == 0:
             # NumpyIO takes &data[0]; give it a 1-byte allocation viewed as empty
-            return NumpyIO(np.empty(1, dtype=np.uint8)[:0])
+            return NumpyIO(np.empty(1, dtype=np.uint8)[1:])     # points at the END of a 1-byte allocation
         return NumpyIO(a)
 
     def decoder(c, call):
@@ -88,10 +88,8 @@ def main():
             cencoding.encode_rle_bp(np.array(c["vals"], dtype=np.int64).astype(np.int32), c["w"], o, c["withlength"])
             return ["ok", buf.tobytes().hex(), o.tell()]
         if fn == "write_bitpacked1":
-            # input: int32 array of 0/1 viewed as bytes (the function advances the input cursor by count*4)
-            vals = np.array(c["vals"], dtype=np.int32)
-            a = np.empty(vals.nbytes + (0 if exact else 0), dtype=np.uint8)
-            a[:] = vals.view(np.uint8)
+            # input: one byte per value (the function fetches 8 of them at once)
+            a = inbuf(c["inp"])
             buf = outbuf(c["cap"])
             fi = nio(a)
             o = nio(buf[:c["cap"]])
@@ -104,9 +102,9 @@ def main():
             return ["ok", speedups.pack_byte_array(items).hex()]
         if fn == "unpack_byte_array":
             a = inbuf(c["inp"])
-            out = speedups.unpack_byte_array(a, c["n"], utf=c.get("utf", False)) if len(a) else None
-            if out is None:
-                return ["skip"]
+            if len(a) == 0:
+                a = np.empty(1, dtype=np.uint8)[1:]
+            out = speedups.unpack_byte_array(a, c["n"], utf=c.get("utf", False))
             return ["ok", [None if x is None else (x.encode("utf-8", "surrogatepass").hex() if isinstance(x, str) else bytes(x).hex())
                            for x in out]]
         if fn == "read_plain_boolean":
@@ -161,6 +159,8 @@ def main():
     with open(out_p, "a") as out:
         start = int(sys.argv[5]) if len(sys.argv) > 5 else 0
         for i in range(start, len(cases)):
+            sys.stderr.write("@@CASE %d\n" % i)
+            sys.stderr.flush()
             try:
                 r = run(cases[i])
             except BaseException as e:      # noqa
